@@ -36,6 +36,8 @@ use std::path::PathBuf;
 pub mod cfg {
     /// WalRotator: true = rotate() fsyncs the writer it drops, a lost writer fails the next sync()
     pub const CODE_SYNCS_BEFORE_DROP: bool = true;
+    /// WalActor (Always mode): true = a SyncTick calls rotator.sync(); false = SyncTick is a no-op
+    pub const CODE_TICK_SYNCS: bool = false;
     /// WAL on-disk format: 2 = entry checksum over len|timestamp|data, empty entry rejected
     pub const CODE_WAL_FORMAT: u8 = 2;
     /// CrashSimulator::crashed_nodes / recovering_nodes: true = sorted by node id (3012c3c),
@@ -61,6 +63,9 @@ pub mod cfg {
 #[global_allocator]
 static GLOBAL: alloc::Counting = alloc::Counting;
 
+/// the property being checked (for case signatures raised by shared helpers)
+pub static PROP: std::sync::OnceLock<String> = std::sync::OnceLock::new();
+
 pub struct Args {
     pub seed: u64,
     pub n: u64,
@@ -84,6 +89,7 @@ fn main() {
         return;
     }
     let prop = argv[1].to_uppercase();
+    let _ = PROP.set(prop.clone());
     let mut a = Args {
         seed: 1,
         n: 1000,
